@@ -46,8 +46,10 @@ MANIFEST = {
 # parameter menus
 # ------------------------------------------------------------------------------------------------
 PROBS = [0.0, 0.5, 1.0]
+PROBS_FULL = [0.0, 0.3, 0.5, 1.0]        # small layouts also get a probability that is not a dyadic fraction
 DISCOUNTS = [0.5, 0.9, 1.0]
 COHERENCE = [0.5, 0.85, 1.0]
+COHERENCE_FULL = [0.0, 0.3, 0.5, 0.85, 1.0]
 
 GW_ALPHA = '.#sgx'
 GW_FR = [None, {'g': 10, 'x': -10}, (('g', 0), ('x', -3))]       # None = constructor default ({'g': 0})
@@ -130,7 +132,7 @@ def _mix(i, seed):
 
 def gw_params(i, seed, full):
     if full:
-        for p in PROBS:
+        for p in PROBS_FULL:
             for sc in GW_STEP:
                 for g in DISCOUNTS:
                     for fr in range(len(GW_FR)):
@@ -144,7 +146,7 @@ def gw_params(i, seed, full):
 
 def wg_params(i, seed, full):
     if full:
-        for p in PROBS:
+        for p in PROBS_FULL:
             for fr in range(len(WG_FR)):
                 for sc in WG_STEP:
                     for b in WG_BUMP:
@@ -158,7 +160,7 @@ def wg_params(i, seed, full):
 
 def hh_params(i, seed, full):
     if full:
-        for c in COHERENCE:
+        for c in COHERENCE_FULL:
             for g in DISCOUNTS:
                 for rw in range(len(HH_REW)):
                     yield (c, g, rw)
@@ -171,8 +173,33 @@ def hh_params(i, seed, full):
 PARAMS = {'gw': gw_params, 'windy': wg_params, 'hoh': hh_params}
 
 
+# a few small layouts built with NOTHING but the layout: every other parameter takes the constructor's default
+DEFAULT_LAYOUTS = {
+    'gw': [('s.g',), ('s#', '.g'), ('sx.', '..g')],
+    'windy': [('@.$',), ('@>', '.$'), ('@^.', 'x.$')],
+    'hoh': [('s.c', 'h.g'), ('hsg', '.c.')],
+}
+# the documented defaults, as the harness reads them from the signatures
+DEFAULT_VALUES = {
+    'gw': lambda as_list: (1.0, -1, 1.0, 0, 0, as_list),        # success_prob, step_cost, discount_rate, GW_FR[0]=None, GW_ABS[0]
+    'windy': lambda _: (0.5, 2, -1, -1, 0.99),                  # wind_probability, WG_FR[2]=None, step_cost, wall_bump_cost, discount_rate
+    'hoh': lambda _: (0.95, 0.95, 0),                           # coherence, discount_rate, HH_REW[0] = (-1, 50, -50)
+}
+
+
+def resolved(item):
+    """A defaults item with the documented default values written out (what everything but the constructor call uses)."""
+    dom, rows, prm = item
+    if prm and prm[0] == 'defaults':
+        return (dom, rows, DEFAULT_VALUES[dom](prm[1]))
+    return item
+
+
 def items(tier, seed):
     yield ('cliff', (), ())
+    for dom, lays in DEFAULT_LAYOUTS.items():
+        for j, rows in enumerate(lays):
+            yield (dom, rows, ('defaults', j % 2))
     for c in TIGER_COHERENCE:
         for g in DISCOUNTS:
             yield ('tiger', (), (c, g))
@@ -206,6 +233,15 @@ def items(tier, seed):
 def build(item):
     """-> (domain object, is_pomdp).  Raises whatever the constructor raises."""
     dom, rows, prm = item
+    if prm and prm[0] == 'defaults':
+        if dom == 'gw':
+            from msdm.domains import GridWorld
+            return GridWorld(list(rows) if prm[1] else '\n'.join(rows)), False
+        if dom == 'windy':
+            from msdm.domains.gridmdp.windygridworld import WindyGridWorld
+            return WindyGridWorld('\n'.join(rows)), False
+        from msdm.domains.heavenorhell import HeavenOrHell
+        return HeavenOrHell(grid='\n'.join(rows)), True
     if dom == 'gw':
         from msdm.domains import GridWorld
         p, sc, g, fr, ab, as_list = prm
@@ -459,6 +495,13 @@ def check(item, tier):
         except Exception as e:                         # a crash is not a rejection
             r.violation('constructor_exception', {'error': repr(e)[:300]}, item)
             return r
+        if prm and prm[0] == 'defaults':
+            r.count('instances_built_with_default_parameters')
+            raw_item, item = item, resolved(item)
+            dom, rows, prm = item
+            if abs(float(obj.discount_rate) - float(prm[2] if dom == 'gw' else prm[4] if dom == 'windy' else prm[1])) > 0:
+                r.violation('default_discount_rate_differs_from_the_documented_default',
+                            {'got': float(obj.discount_rate), 'domain': dom}, raw_item)
         r.count('instances')
         r.count('instances:' + dom)
         discount = float(obj.discount_rate)
